@@ -260,6 +260,18 @@ def judge(rep, wl, script, lines, ff):
             pending = (t[0], ret, t[3] == "f", dict(pos), k, None)
             if t[0] == "r":
                 reads.append((pos["r"], ret, d.get("data", ""), k))
+        elif t[0] in ("rraw", "wraw"):
+            # sf_read_raw / sf_write_raw: byte counts; the position moves by ret / blockwidth frames
+            req = int(t[2])
+            ret = int(d.get("ret", "-99"))
+            if not (0 <= ret <= req):
+                probs.append(Problem("range", k, "%s of %d bytes returned %d" % (t[0], req, ret)))
+            bw = getattr(rep, "bpf", 0) or getattr(rep, "blockwidth", 0)
+            same_view = ff is None or lines[ops.index(next(o for o in ops if o.startswith("open ")))].strip() == ff.get("open", "").strip()
+            if bw > 0 and ret >= 0 and ret % bw == 0 and same_view:     # (a fault inside the open may leave the library with another frame width)
+                pending = ("r" if t[0] == "rraw" else "w", ret // bw, True, dict(pos), k, None)
+            else:
+                pending = None
         elif t[0] == "seek":
             ret = int(d.get("ret", "-99"))
             wh = int(t[3])
